@@ -125,8 +125,52 @@ func c28(r *Run) {
 		}
 		r.check(okRet, "C28.R2", "fromChecksum:payload-only-after-checks", w.rel(fcf.Pos()), "", "fromChecksum can return a payload whose checksum was not compared (or without the length check)")
 		r.check(short_ && bad, "C28.R2", "fromChecksum:error-cases", w.rel(fcf.Pos()), "", "fromChecksum does not reject short input and checksum mismatch")
-		for _, c := range callsNamed(fcf, "encoding/hex.DecodeString") {
-			r.failureLeadsToErrorReturn(w, "C28.R2", "fromChecksum:invalid-hex-rejected", c)
+		// the hex decoding may be delegated to the package's LoadHex helper (with no size expectation)
+		decFn := fcf
+		if lh := callsNamed(fcf, pkgCodec+".LoadHex"); len(lh) == 1 && len(callsNamed(fcf, "encoding/hex.DecodeString")) == 0 {
+			r.failureLeadsToErrorReturn(w, "C28.R2", "fromChecksum:LoadHex-error-returned", lh[0])
+			r.check(term(lh[0].Common().Args[0]) == "p0" && term(lh[0].Common().Args[1]) == "-1", "C28.R2", "fromChecksum:LoadHex(input, any size)", r.at(w, lh[0]), "", "fromChecksum does not decode its whole input")
+			if f := w.Fn(pkgCodec + ".LoadHex"); f != nil {
+				decFn = f
+				r.saw(f)
+			}
+		}
+		dcs := callsNamed(decFn, "encoding/hex.DecodeString")
+		if len(dcs) == 1 {
+			r.failureLeadsToErrorReturn(w, "C28.R2", "fromChecksum:invalid-hex-rejected", dcs[0])
+			// the digits decoded are the input's digits: the input itself or the input without its two-character prefix,
+			// never padded, trimmed or otherwise rewritten (hex.DecodeString then rejects odd lengths and non-hex digits)
+			okD, strips := true, false
+			var walk func(v ssa.Value, seen map[ssa.Value]bool)
+			walk = func(v ssa.Value, seen map[ssa.Value]bool) {
+				if seen[v] {
+					return
+				}
+				seen[v] = true
+				switch x := v.(type) {
+				case *ssa.Parameter:
+					if x != decFn.Params[0] {
+						okD = false
+					}
+				case *ssa.Phi:
+					for _, e := range x.Edges {
+						walk(e, seen)
+					}
+				case *ssa.Slice:
+					if x.X == ssa.Value(decFn.Params[0]) && x.Low != nil && term(x.Low) == "2" && x.High == nil {
+						strips = true
+					} else {
+						okD = false
+					}
+				default:
+					okD = false
+				}
+			}
+			walk(dcs[0].Common().Args[0], map[ssa.Value]bool{})
+			r.check(okD, "C28.R2", "fromChecksum:digits-decoded-unaltered", r.at(w, dcs[0]), "input or input[2:]", "the text handed to hex.DecodeString is not the input (minus its 0x prefix): padded or rewritten digits let strings that are not an address's encoding parse")
+			r.check(strips, "C28.R3", "fromChecksum:strips-0x", r.at(w, dcs[0]), "", "the decoder does not handle the 0x prefix the encoder writes")
+		} else {
+			r.missing("C28.R2", "fromChecksum:hex-decode", "expected one hex.DecodeString call in fromChecksum or codec.LoadHex")
 		}
 	}
 	enc := r.fn(w, "C28.R3", pkgCodec+".encodeWithChecksum")
@@ -139,15 +183,6 @@ func c28(r *Run) {
 			}
 		}
 		r.check(len(cs) == 1 && pre, "C28.R3", "encodeWithChecksum:checksum(payload,4)+0x", w.rel(enc.Pos()), "", "the encoder does not append the 4-byte checksum of the payload and prefix 0x")
-	}
-	if fcf != nil {
-		pre := false
-		for _, b := range fcf.Blocks {
-			if ifi, ok := b.Instrs[len(b.Instrs)-1].(*ssa.If); ok && strings.Contains(predString(ifi.Cond, true), "120") { // 'x'
-				pre = true
-			}
-		}
-		r.check(pre, "C28.R3", "fromChecksum:strips-0x", w.rel(fcf.Pos()), "", "the decoder does not handle the 0x prefix the encoder writes")
 	}
 }
 
